@@ -86,7 +86,7 @@ def run_mc(prop, module, cfg, subdir, workers=8, timeout=900, gen_tag=None, gen_
     tail = []
     n_gen = 0
     cov = {}
-    res = {"states": 0, "distinct": 0, "depth": 0}
+    res = {"states": 0, "distinct": 0, "depth": 0, "violated": None}
     prefix = '<<"%s", ' % gen_tag if gen_tag else None
     noerr = False
     count = 0
@@ -105,6 +105,8 @@ def run_mc(prop, module, cfg, subdir, workers=8, timeout=900, gen_tag=None, gen_
             continue          # expression-level coverage detail
         if "No error has been found" in line:
             noerr = True
+        if "is violated" in line and line.startswith("Error:"):
+            res["violated"] = line
         m = RE_STATES.search(line)
         if m:
             res["states"], res["distinct"] = int(m.group(1)), int(m.group(2))
